@@ -542,12 +542,31 @@ def delegates_preserve(ctx, cr):
         f = cr.fns[k]
         seen = []
 
+        guards = []
+
+        def mentions_record(a, st, v, n=0):
+            v = a.resolve(st, v)
+            if "arg3@" in ai.fmt_val(v):
+                return True
+            if v[0] == "ref" and n < 4:
+                try:
+                    return mentions_record(a, st, a.read_at(st, v[1], v[2]), n + 1)
+                except Exception:
+                    return False
+            return False
+
         class H(ai.Hooks):
             def call(self, a, st, term, callee, args):
                 d = M.norm_path(callee.get("decl", ""))
+                mon = st.mon or Mon()
                 if d.endswith("RecordTracer::end_record") and st.top is st.frames[0] and len(args) >= 3:
                     seen.append(a.resolve(st, args[2]))
+                    guards.append((a.resolve(st, args[2]), mon.get("nameeq")))
                     return [(("enum", ai.RESULT, 0, (("tuple", ()),)), st.mon), (("enum", ai.RESULT, 1, (("sym", "TRACER_ERR"),)), st.mon)]
+                if d in ("std::cmp::PartialEq::eq", "std::cmp::PartialEq::ne") and st.top is st.frames[0] and len(args) == 2 and any(mentions_record(a, st, x) for x in args):
+                    # a comparison of (a field of) the incoming record: remember its outcome on this path
+                    eq = d.endswith("::eq")
+                    return [(("bool", True), mon.set(nameeq=eq)), (("bool", False), mon.set(nameeq=not eq))]
                 return None
         a = ai.AI(cr, H())
         try:
@@ -583,6 +602,12 @@ def delegates_preserve(ctx, cr):
         untouched = [v for v in seen if v[0] == "enum" and v[1] == RT and v[3] and v[3][0][0] == "sym" and vn[v[2]] == "RuleCheck"]
         if rebuilt and not untouched:
             bad.append("every RuleCheck passing through is rebuilt (no path hands the incoming record on unchanged): nested rule checks lose their own message to the call site's")
+        # ... and the rebuilt record is the called rule's: it is produced only on the path where the incoming record's name was compared
+        # with the rule this tracer stands for and found equal
+        for v, nameeq in guards:
+            if v[0] == "enum" and v[1] == RT and v[3] and v[3][0][0] == "enum" and nameeq is not True:
+                bad.append("a RuleCheck is rebuilt with the call site's message on a path where its name was not found equal to the called rule's (%s): the message lands on other rules' records" % (
+                    "no comparison" if nameeq is None else "names differ"))
         ctx.ob(rule, "%s:delegate-preserves:%s" % (rule, k.split(" as ")[0].lstrip("<")), not bad, "; ".join(sorted(set(bad))[:2]) or "%d delegations, record (or its name and status) unchanged" % len(seen), fn=f,
                sample={"tracer": k, "delegations": len(seen)} if "ResolvedParameterContext" in k else None)
     if n_del < 4:
